@@ -1,5 +1,6 @@
 import Py4hwV.Proofs.C03EmitFlat
 import Py4hwV.Proofs.C03EmitHier
+import Py4hwV.Proofs.C03EmitRel
 /-
   C03 — well-formedness of everything the MODEL emitter writes for flat designs, as a universal theorem.
 
@@ -91,5 +92,45 @@ def exH : HSrc :=
 
 example : exH.okb = true := by decide
 example : exH.emit.length = 3 ∧ WF.check exH.emit = [] := ⟨by decide, emit_check_hier exH (by decide)⟩
+
+/-! ## the same theorem about the C01 model's emitter
+
+  `FlatM.HierSrc` (lean/Py4hwV/Emit/Hier.lean) is the NESTED description C01's theorems are about (`HierSrc.emit`);
+  `S.toHS` (lean/Py4hwV/Verilog/EmitMDOf.lean) lists it level-free and `C03Emit.toHS_emit : S.toHS.emit = S.emit`
+  (with `C03Emit.toHS_mods`, Proofs/C03EmitRel.lean) proves that both models emit the same module list, so the
+  well-formedness theorem holds for the design C01's theorems speak about. -/
+
+/-- **`emit_wf_hierSrc`**: the module list the C01 model emitter writes for a nested description whose level-free listing
+    passes `HSrc.okb` is well formed -/
+theorem emit_wf_hierSrc (S : FlatM.HierSrc) (h : S.toHS.okb = true) : V.WF.WellFormed S.emit :=
+  toHS_emit S ▸ emit_wf_hier S.toHS h
+
+theorem emit_check_hierSrc (S : FlatM.HierSrc) (h : S.toHS.okb = true) : WF.check S.emit = [] :=
+  C03.check_complete _ (emit_wf_hierSrc S h)
+
+/-- what the harness uses: when the PARSED REAL TEXT equals `S.emit` (C01's check, and `hcheck` of lean/Drv/C03Emit.lean after
+    `hsrc`, through `toHS_emit`), the real text is well formed -/
+theorem real_text_wf_hierSrc (S : FlatM.HierSrc) (d : V.Design) (hd : d = S.emit) (h : S.toHS.okb = true) : V.WF.WellFormed d :=
+  hd ▸ emit_wf_hierSrc S h
+
+/-- non-vacuity: the nested form of `exH` (depth 1; the sub-module `Inv` contains a register and an inlined `Not`) -/
+def exHS : FlatM.HierSrc :=
+  { depth := 1, clk := "clk", widths := [4, 4, 4, 4, 4],
+    top :=
+      { mname := "Top", names := [(0, "a"), (1, "b"), (2, "r"), (3, "w_t")], inputs := [("a", 0), ("b", 1)], outputs := [("r", 2)],
+        locals := [3],
+        children :=
+          [.sub "i_u"
+             { mname := "Inv", names := [(0, "a"), (3, "r"), (4, "w_q")], inputs := [("a", 0)], outputs := [("r", 3)], locals := [4],
+               children := [.reg { iname := "i_ff", mname := "Reg4", leaf := { hasR := false, hasE := false, rv := 0, d := 0, e := 0, r := 0, q := 4 } },
+                            .kind (.prim (.not1 4 3))] },
+           .g (.kind (.prim (.and2 3 1 2)))] },
+    order := [], vorder := [] }
+
+example : exHS.toHS.okb = true := by decide
+example : exHS.toHS.mods.length = 3 ∧ exHS.emit.length = 3 := by decide
+example : WellFormed exHS.emit ∧ WF.check exHS.emit = [] := ⟨emit_wf_hierSrc exHS (by decide), emit_check_hierSrc exHS (by decide)⟩
+/-- the conversion of the nested example gives the level-free example's module list -/
+example : exHS.toHS.emit = exH.emit := by decide
 
 end C03Emit
